@@ -208,3 +208,33 @@ def ctrl_strings(rng, quick):
                 ctrl = rng.choice([0x00, 0x01, 0x09, 0x0A, 0x0D, 0x1F])
                 out.append(b"x" * a + esc + b"y" * b + bytes([ctrl]) + b"z" * c)
     return out
+
+
+def pretty_docs(rng, quick):
+    """pretty-printed documents: one value per line, every indentation width 0..140 (whitespace runs shorter / longer than the 32- and
+    64-byte scanner blocks, tokens landing in every lane of the cached whitespace bitmap), blanks / tabs / CRLF, 1..9 items per level"""
+    import json
+    out = []
+    widths = list(range(0, 141)) if not quick else sorted(set(rng.sample(range(0, 141), 28) + [0, 1, 2, 30, 31, 32, 33, 34, 35, 36, 62, 63, 64, 65, 66, 127, 128]))
+    for w in widths:
+        for _ in range(2 if quick else 4):
+            n = rng.randrange(1, 10)
+            kind = rng.randrange(4)
+            if kind == 0:
+                v = [rng.choice([i, -i, i + 0.5, "s%d" % i, None, True]) for i in range(n)]
+            elif kind == 1:
+                v = {"k%d" % i: rng.choice([i, "v%d" % i, [i], {"z": i}]) for i in range(n)}
+            elif kind == 2:
+                v = [{"id": i, "t": [i, i + 1]} for i in range(n)]
+            else:
+                v = {"a": [list(range(n)), {"b": {"c": [None] * (n % 4)}}], "e": "x\ny"}
+            t = json.dumps(v, indent=w).encode() if w else json.dumps(v, indent=0).encode()
+            style = rng.randrange(4)
+            if style == 1:
+                t = t.replace(b"\n", b"\r\n")
+            elif style == 2:
+                t = t.replace(b" ", b"\t") if b'"' not in t else t.replace(b"\n" + b" " * w, b"\n" + b"\t" * w)
+            elif style == 3:
+                t = t.replace(b": ", b" :  ").replace(b",\n", b" ,\n")
+            out.append(t)
+    return out
